@@ -267,6 +267,7 @@ def check(repo, run, tier):
     g(unitrules.removed_root_excepted, repo, run, 'C08.R1')
     g(unitrules.errors_constructible, repo, run, 'C08.R7')
     g(unitrules.error_wrapping, repo, run, 'C08.R7')
+    g(unitrules.propagate_implicit_table, repo, run, 'C08.R3', ('allow_new',))
     g.done()
 
 
@@ -278,6 +279,7 @@ def _two(r):
 
 def mutants(repo):
     return [
+        Mutant('explicit-notnew-overwritten-by-inherited-value', lambda r: in_func(r, 'ComposedNode._propagate_implicit_values', "            if self._allow_new is None:", "            if not self._allow_new:"), ['C08.R3']),
         Mutant('removed-paths-in-a-default-argument', lambda r: _two(r), ['C08.R1']),
         Mutant('non-node-operand-as-second-node', lambda r: in_func(r, 'node.decorator_factory', "if not isinstance(other, ConfigNode):", "if isinstance(other, ConfigNode):"), ['C08.R7']),
         Mutant('api-entry-touches-missing-context', lambda r: in_func(r, 'errors.api_entry', "if orig_exp is not None:", "if orig_exp is None:"), ['C08.R7']),
